@@ -83,7 +83,7 @@ theorem RS_insert (c : SqlCfg) (ok : SqlOK c) (s : SqlState) (kv : KV) (R : RS c
     refine List.Perm.trans (List.perm_append_singleton q _) ?_
     exact List.Perm.cons _ (R.keysOK.filter _)
 
-theorem sql_sim (c : SqlCfg) (ok : SqlOK c) : Sim (sqlCOps c) (kvOpsC kvCfgDrop) (RS c) (fun _ op => op.hasData = true) := by
+theorem sql_sim (c : SqlCfg) (ok : SqlOK c) : CSim (sqlCOps c) (kvOpsC kvCfgDrop) (RS c) (fun _ op => op.hasData = true) := by
   intro s kv op R hdata
   have hkeys : ∀ s', s'.rows = s.rows → (s'.memo = none ∨ s'.memo = some (s'.rows.map (·.query))) →
       (SqlC.availableKeys s').2 = s.rows.map (·.query) ∧ (SqlC.availableKeys s').1.rows = s.rows ∧
